@@ -4,6 +4,7 @@ CONTRACTS = []
 
 
 REPLAY = {
+    "coco.veftopng.start": dict(tool="veftopng"),
     "coco.hrstoppm": dict(tool="hrstoppm", opts=dict(width="width", height="height", skip="skip")),
     "coco.rattoppm": dict(tool="rattoppm"),
     "coco.mgetoppm": dict(tool="mgetoppm"),
@@ -285,22 +286,31 @@ contract(module="coco.maxtoppm", qualname="convert", tag="C19", also=["C18"],
                        post="n == 3*(cols*rows)",
                        known=[dict(finding="KF-C18-MAX-width-not-multiple-of-8", when="cols % 8 != 0"),
                               dict(finding="KF-C19-MAX-short-rows", when="cols % 8 == 0 and pos - dstart < cw*rows")]),
-                  dict(id="result-is-bool", post="result == True or result == False", props=["C19"])],
+                  dict(id="result-is-bool", post="result == True or result == False", props=["C19"]),
+                  # corrupted header fields are reported unless header errors are to be ignored (documented failure result: False)
+                  dict(id="bad-first-byte-is-reported", when="result == True", props=["C19"],
+                       post="newsroom or ignore_header_errors or inp[base] == 0"),
+                  dict(id="inconsistent-length-is-reported", when="result == True", props=["C19"],
+                       post="newsroom or ignore_header_errors or rows0 is not None or "
+                            "(cols0 * ((8 * (inp[base + 1] * 256 + inp[base + 2])) // cols0)) // 8 == inp[base + 1] * 256 + inp[base + 2]")],
          lemmas=[],
          raises=[dict(id="loud", exc="*", allowed="True")])
 
+UNSQ_BYTES = "forall(0, len(decomp_data), lambda j: 0 <= decomp_data[j] and decomp_data[j] <= 255)"
 contract(module="coco.veftopng", qualname="unsquash", tag="C19",
          params=dict(data="bytes_list", count="int", orig_len="int"),
          # any record, truncated ones included: a normal return means every group lay inside the data actually present
          requires=["count >= 0", "orig_len >= 0"],
          ghost_entry="gi = 0\nc0 = 0",
-         loops={0: dict(ghost_vars=["gi", "c0"], ghost_body_start="gi = i", inv=["i >= 0", "i <= len(data)"], decreases="count - i"),
+         loops={0: dict(ghost_vars=["gi", "c0"], ghost_body_start="gi = i", inv=["i >= 0", "i <= len(data)", UNSQ_BYTES], decreases="count - i"),
                 1: dict(ghost_before="c0 = count_byte",
-                        inv=["i == gi + 1", "i <= len(data)", "c0 >= 1", "count_byte <= c0", "implies(count_byte < c0, i < len(data))"],
+                        inv=["i == gi + 1", "i <= len(data)", "c0 >= 1", "count_byte <= c0", "implies(count_byte < c0, i < len(data))", UNSQ_BYTES],
                         decreases="count_byte"),
-                2: dict(inv=["i >= gi + 1", "i <= len(data)", "j >= 0"], decreases="count_byte - j")},
+                2: dict(inv=["i >= gi + 1", "i <= len(data)", "j >= 0", UNSQ_BYTES], decreases="count_byte - j")},
          ensures=[dict(id="truncated-record-is-loud", post="count <= len(data)"),
-                  dict(id="cut-to-nominal-length", post="len(result) <= orig_len")],
+                  dict(id="cut-to-nominal-length", post="len(result) <= orig_len"),
+                  dict(id="bytes", post="forall(0, len(result), lambda j: 0 <= result[j] and result[j] <= 255)")],
+         result_spec=["len(result) <= orig_len", "forall(0, len(result), lambda j: 0 <= result[j] and result[j] <= 255)"], may_raise=["IndexError"],
          raises=[dict(id="loud", exc="IndexError", allowed="True")], check_termination=True)
 
 # ------------------------------------------------------------------ coco.cm3toppm
@@ -422,3 +432,37 @@ contract(module="coco.maxtoppm", qualname="convert", tag="C16",
          ensures=[dict(id="pixels", when="result == True", post=MAX_PX.format(K="cw*rows")),
                   dict(id="length", when="result == True", post="n == 24*(cw*rows)")],
          raises=[dict(id="header-too-short", exc="IndexError", allowed="L < base + 5")])
+
+
+# ------------------------------------------------------------------ coco.veftopng.start (decoding part; argparse / pypng / Pillow are assumed externals)
+VEF_PARAMS = dict(argv=("const", ("argv",)))
+contract(module="coco.veftopng", qualname="start", tag="C16", also=["C18"],
+         params=VEF_PARAMS,
+         # uncompressed VEF of the three listed types: first byte not 0x80, type byte 0 / 1 / 3, 16 palette entries that are
+         # colour codes (0..63), then exactly the nominal number of image bytes
+         requires=["L >= 18", "inp[0] != 128", "inp[1] == 0 or inp[1] == 1 or inp[1] == 3", "forallq(2, 18, lambda j: inp[j] <= 63)",
+                   "L == 18 + ite(inp[1] == 3, 16000, 32000)"],
+         ghost_entry="ppb = ite(inp[1] == 0, 2, 4)",
+         loops={1: dict(counter="bi", inv=["len(bitmap) == (2 if veftype == 8 else 4)*bi", "ppb == ite(inp[1] == 0, 2, 4)", "(veftype == 8) == (inp[1] == 0)",
+                                            "forall(0, len(bitmap), lambda q: 0 <= bitmap[q] and bitmap[q] <= 63)",
+                                            "forall(0, bi, lambda p: vef_fields(bitmap, p, inp, (2 if veftype == 8 else 4)))"])},
+         ensures=[dict(id="png-written", post="png_written", props=["C16", "C18"]),
+                  dict(id="size-by-type", post="png_w == ite(inp[1] == 1, 640, 320) and png_h == 200", props=["C16", "C18"]),
+                  dict(id="bitmap-complete", post="len(png_bitmap) == png_w*png_h", props=["C16", "C18"]),
+                  dict(id="pixels", post="forall(0, L - 18, lambda p: vef_fields(png_bitmap, p, inp, ppb))", props=["C16"]),
+                  dict(id="indexes-palette", post="forall(0, len(png_bitmap), lambda q: 0 <= png_bitmap[q] and png_bitmap[q] <= 63)", props=["C16", "C18"]),
+                  dict(id="palette-is-the-six-bit-colour-code", post="forall(0, 64, lambda k: png_palette[k][0] == px6r(k) and png_palette[k][1] == px6g(k) and png_palette[k][2] == px6b(k))", props=["C16"]),
+                  dict(id="palette-has-64-entries", post="len(png_palette) == 64", props=["C16", "C18"]),
+                  dict(id="resize-only-the-640-wide", post="png_resized == (png_w == 640) and implies(png_w == 640, png_resized_w == 640 and png_resized_h == 400)", props=["C16", "C18"])],
+         reveal=["px6r", "px6g", "px6b"],
+         raises=[])
+contract(module="coco.veftopng", qualname="start", tag="C19",
+         params=VEF_PARAMS, requires=[], check_termination=True,
+         loops={0: dict(inv=["i >= 0", "count_byte >= 18", "forall(0, len(image_data), lambda j: 0 <= image_data[j] and image_data[j] <= 255)"], decreases="400 - i"),
+                1: dict(counter="bi", inv=["implies(veftype == 8, len(bitmap) == 2*bi)", "implies(veftype == 7 or veftype == 6, len(bitmap) == 4*bi)",
+                                            "implies(veftype == 5, len(bitmap) == 0)"])},
+         # type 5 (640x200x2) is accepted by the type table but has no pixel branch: an empty pixel stream is written and the
+         # run then fails loudly inside Pillow's resize (observed natively: OSError) - a reported failure, so no claim is made for it
+         ensures=[dict(id="complete", when="png_written and veftype != 5", post="len(png_bitmap) == png_w*png_h",
+                       known=[dict(finding="KF-C19-VEF-image-data-of-the-wrong-length", when="len(image_data) != ite(veftype == 6, 16000, 32000)")])],
+         raises=[dict(id="exit-nonzero", exc="SystemExit", allowed="exit_code != 0"), dict(id="loud", exc="IndexError", allowed="True")])
